@@ -95,7 +95,8 @@ func (it *Interp) sprintf(format string, args []Value) (*StrV, []Value) {
 			if iv.t != nil && (v == 'w' || v == 's' || v == 'v') {
 				// error or Stringer: opaque text
 				if _, isStr := arg.(*StrV); !isStr {
-					if _, isInt := arg.(int64); !isInt {
+					_, isBool := arg.(bool)
+					if _, isInt := arg.(int64); !isInt && !isBool {
 						if _, isSym := arg.(*Sym); !isSym {
 							out.A = append(out.A, Atom{Lit: "<" + types.TypeString(iv.t, nil) + ">"})
 							continue
@@ -492,6 +493,56 @@ func init() {
 				it.raceAccessAt(Ptr{o: p.arr}, false, it.curPos)
 			}
 			return it.convert(p, types.NewSlice(types.Typ[types.Uint8]), types.Typ[types.String])
+		},
+		"strings.TrimPrefix": func(it *Interp, a []Value) Value {
+			pre, ok := a[1].(*StrV).isConc()
+			if !ok {
+				it.unsup("TrimPrefix symbolic prefix")
+			}
+			s := a[0].(*StrV).norm()
+			if c, ok := s.isConc(); ok {
+				return conc(strings.TrimPrefix(c, pre))
+			}
+			if len(s.A) > 0 && s.A[0].Sym == "" && s.A[0].Line == nil && len(s.A[0].Lit) >= len(pre) {
+				if strings.HasPrefix(s.A[0].Lit, pre) {
+					out := &StrV{A: append([]Atom{{Lit: s.A[0].Lit[len(pre):]}}, s.A[1:]...)}
+					return out.norm()
+				}
+				return s
+			}
+			it.unsup("TrimPrefix on a string whose head is not a literal")
+			return nil
+		},
+		"strings.Contains": func(it *Interp, a []Value) Value {
+			s, ok1 := a[0].(*StrV).isConc()
+			p, ok2 := a[1].(*StrV).isConc()
+			if ok1 && ok2 {
+				return strings.Contains(s, p)
+			}
+			if ok2 { // a literal atom containing p settles it
+				for _, at := range a[0].(*StrV).norm().A {
+					if at.Sym == "" && at.Line == nil && strings.Contains(at.Lit, p) {
+						return true
+					}
+				}
+			}
+			it.unsup("strings.Contains on a symbolic string")
+			return nil
+		},
+		"strings.HasSuffix": func(it *Interp, a []Value) Value {
+			s, suf := a[0].(*StrV).norm(), a[1].(*StrV)
+			cs, ok2 := suf.isConc()
+			if !ok2 {
+				it.unsup("HasSuffix symbolic suffix")
+			}
+			if c, ok := s.isConc(); ok {
+				return strings.HasSuffix(c, cs)
+			}
+			if n := len(s.A); n > 0 && s.A[n-1].Sym == "" && s.A[n-1].Line == nil && len(s.A[n-1].Lit) >= len(cs) {
+				return strings.HasSuffix(s.A[n-1].Lit, cs)
+			}
+			it.unsup("HasSuffix on a string whose tail is not a literal")
+			return nil
 		},
 		"strings.TrimSuffix": func(it *Interp, a []Value) Value {
 			suf, ok := a[1].(*StrV).isConc()
